@@ -370,23 +370,33 @@ func c06RelayedOrEmpty(r *Run, fn *ssa.Function, key, keyRelayed string, a *ssa.
 	if len(sts) == 0 {
 		r.Fail(key, r.FnPos(fn), fmt.Sprintf("expected >= 1 stores to %s.%s in %s, found 0", r.D.allocName(a), field, FuncName(fn)))
 	}
-	// the valuation "the backend's list is non-nil" (when the code tests the list at all)
-	var nonNil Sigma
-	if s, _, err := r.bindSets(fn, nil, nil, AtomSet{nilAtom(H), "non"}); err == nil {
-		nonNil = s
+	// the valuation "the backend's list is non-nil" (when the code tests the list at all); the list is H whether it is
+	// read by loading the fields or through their nil-safe accessors (partTerm)
+	nonNil := Sigma{}
+	for _, k := range c08NilTests(r, fn, H) {
+		nonNil[k] = "non"
 	}
+	walk := r.D.Walk(fn, nonNil, nil, nil)
+	r.Valuations++
 	relayed := ""
 	for _, st := range sts {
 		got := r.D.D(st.Val)
 		ok := true
 		for _, leaf := range phiLeaves(st.Val) {
-			if d := r.D.D(leaf); !glob(H, d) && d != empty {
+			if d := partTerm(r, leaf); !glob(H, d) && d != empty {
 				ok = false
 			}
 		}
 		r.Check(key, ok, r.Where(st), field+" ← "+got)
-		if under := r.ValueUnder(fn, st.Val, nonNil); glob(H, under) {
-			relayed = under
+		under := leavesUnder(st.Val, walk)
+		all := len(under) > 0
+		for _, leaf := range under {
+			if !glob(H, partTerm(r, leaf)) {
+				all = false
+			}
+		}
+		if all {
+			relayed = r.D.DUnder(st.Val, walk)
 		}
 	}
 	r.Check(keyRelayed, relayed != "", r.Where(at), "the backend's proof hashes are relayed whenever the backend sent any: "+relayed)
